@@ -2,6 +2,9 @@
    Correspondence: for every (module, prefix) observed in a store, the prediction of the extracted
    table + model ([Genesis.predict], [Genesis.counter_restore]) is compared with what the real
    ExportGenesis -> JSON -> InitGenesis did (identical / zero records / empty / recomputed counter).
+   (No prefix is predicted "zero records" since the repair of C20-F1, none of the collector is "at
+   risk" since the repair of C20-F12: on an unrepaired tree the regenerated table predicts them again
+   and the table theorem of Properties/C20.v fails.)
    Predicate: the extracted [holds_C20_prefix] on the implementation's two dumps and
    [holds_C20_step] on every continuation step; failures are classified by [kf_C20_class]. *)
 open Conv
@@ -40,6 +43,21 @@ let parse_p toks =
     { m; b = int_of_string b; n_o = int_of_string n_o; n_n = int_of_string n_n; max_n = Z.of_string max_n;
       last_n = Z.of_string last_n; c_o = Z.of_string c_o; c_n = Z.of_string c_n; eo = pairs e; en = pairs n }
   | _ -> failwith "bad p line"
+
+(* Conv.predfail prints only the first 200 failures of a run, known classes and unclassified ones
+   together; a long run has thousands of known-class failures.  So that an unclassified failure is
+   never cut off, each known class is reported through Conv.predfail at most [kf_cap] times per run
+   and counted in the histogram ("predfail-more:<pred>:<kf>") after that. *)
+let kf_cap = 12
+let kf_seen : (string, int) Hashtbl.t = Hashtbl.create 16
+let predfail ~case ~step ~pred ~kf ~detail =
+  if kf = "none" then Conv.predfail ~case ~step ~pred ~kf ~detail
+  else begin
+    let n = (try Hashtbl.find kf_seen kf with Not_found -> 0) in
+    Hashtbl.replace kf_seen kf (n + 1);
+    if n < kf_cap then Conv.predfail ~case ~step ~pred ~kf ~detail
+    else bump ("predfail-more:" ^ pred ^ ":" ^ kf)
+  end
 
 let class_code = function "ok" -> 0 | "err" -> 1 | "panic" -> 2 | _ -> 3
 let is_zero z = (z = BinNums.Z0)
